@@ -22,6 +22,8 @@
      psb/keys.go        newTokenOrRootKey, NewRootKey, NewTokenKey -> token_key, Key.Get -> psb_key_get,
                         Key.SignatureSize, Key.checkValid
      psb/signature.go   NewSignedBlob -> new_signed_blob
+     psb/biosentries.go ValidateRTM from the extracted entries on -> validate_rtm (signed data =
+                        volume ++ [level 1 directory at level 2] ++ directory; reversed signature)
      psb/psbbinary.go   newPspHeader (the five fields used), getSignedBlob -> get_signed_blob
      psb/pspentries.go  ValidatePSPEntry (from the entry bytes on) -> psp_validate
 
@@ -610,6 +612,16 @@ Definition token_key (ks : keyset) (raw : bytes) : outcome psbkey :=
     do _ <- new_signed_blob (psb_reverse signature) signed sk;
     Ok k
   end.
+
+(* ValidateRTM (biosentries.go) from the extracted entries on; the directory walk that finds them
+   is property C17.  The signed data is the RTM volume followed, at level 2, by the bytes of the
+   level 1 BIOS directory, and then by the bytes of the BIOS directory of the level under test; the
+   signature entry is stored byte-reversed; the key is the OEM key GetKeys accepted (a token key) *)
+Definition rtm_signed_data (level : Z) (rtm l1 ln : bytes) : bytes :=
+  rtm ++ (if level =? 2 then l1 else []) ++ ln.
+
+Definition validate_rtm (level : Z) (rtm l1 ln sg : bytes) (oem : psbkey) : outcome unit :=
+  new_signed_blob (psb_reverse sg) (rtm_signed_data level rtm l1 ln) oem.
 
 End Oracles.
 
